@@ -1,7 +1,9 @@
 #!/bin/sh
 # tools_import_round.sh <out-dir>...: copy finished seeded changes (patch.diff + demo.py + meta.json) of a round's
-# authors into seeded/ (skipping those already imported) and evaluate each: baseline suite, demo both ways, own check.
+# authors into seeded/ (skipping those already imported) and evaluate each (4 at a time): baseline suite, demo both
+# ways, own check.
 cd /verif
+new=""
 for out in "$@"; do
   for d in "$out"/C*; do
     [ -f "$d/meta.json" ] && [ -f "$d/patch.diff" ] && [ -f "$d/demo.py" ] || continue
@@ -9,6 +11,7 @@ for out in "$@"; do
     [ -d "seeded/$id" ] && continue
     mkdir -p "seeded/$id"
     cp "$d/patch.diff" "$d/demo.py" "$d/meta.json" "seeded/$id/"
-    ./tools_seeded.py eval "seeded/$id" --baseline --demo
+    new="$new seeded/$id"
   done
 done
+[ -n "$new" ] && printf '%s\n' $new | xargs -P 4 -I{} sh -c './tools_seeded.py eval {} --baseline --demo 2>&1 | grep -v WARNING'
